@@ -32,6 +32,11 @@ def sanitize_form(model: Model) -> tuple[FuncInfo, Optional[dict]]:
     if not stores or fl.canon_cond(stores[-1].cond) != "TRUE":
         return f, None
     v = stores[-1].expr.value  # type: ignore[attr-defined]
+    while isinstance(v, ast.Call) and isinstance(v.func, ast.Name) and v.func.id == "list" and len(v.args) == 1 and not v.keywords \
+            and isinstance(v.args[0], (ast.ListComp, ast.GeneratorExp, ast.Call)):
+        v = v.args[0]  # list(<list built by a comprehension>) is that list
+    if isinstance(v, ast.GeneratorExp):
+        v = ast.ListComp(elt=v.elt, generators=v.generators)
     if not (isinstance(v, ast.ListComp) and len(v.generators) == 1 and isinstance(v.elt, ast.Tuple) and len(v.elt.elts) == 2):
         return f, None
     g = v.generators[0]
